@@ -9,6 +9,14 @@ COMMON_TRUSTED = [
 ]
 
 PROPS = {
+    "C16": dict(
+        props_files=["Avfs/Props/C16.lean"],
+        parts=[dict(name="copy")],
+        trusted=["modelled, not verified: io.CopyBuffer and io.MultiWriter of the Go standard library (loop transliterated into Avfs.Copy.copyLoop), sync.Pool, the hash.Hash passed in (sha256 in the correspondence)",
+                 "fault injection through the repository's own FailFS on both sides (its consult-before-forward behaviour is property C12)"],
+        assumptions=["source and destination are different files", "Read delivers min(32768, remaining) bytes then (0, io.EOF) (MemFS/OrefaFS/os.File behaviour, observed in every correspondence run through the primitive trace)"],
+        not_yet_proved=[],
+    ),
     "C13": dict(
         props_files=["Avfs/Props/C13.lean"],
         tags="verif,avfs_setostype",
